@@ -62,6 +62,15 @@ FUNCS = {
     "lp": dict(c="char lp(char n) { char r; r = 0; while (n) { r += 2; n--; } return r; }", params=[("lp_n", 8)], body=None, calls=[]),
     "er": dict(c="char er(char x) { for (Y = 0; Y < 4; Y++) { if (arr[Y] == x) return Y; } return 9; }", params=[("er_x", 8)], body=None, calls=[]),
     "sw": dict(c="char sw(char x) { switch (x) { case 0: return 5; case 1: c++; break; default: c = x; } return c; }", params=[("sw_x", 8)], body=None, calls=[]),
+    # explicit hardware-access statements inside (inline) functions: they must survive inlining exactly once, in order (C18)
+    "rdp": dict(c="void rdp() { load(*PORT1); }", params=[], body=[{"k": "load", "e": V("PORT1")}], calls=[]),
+    "rda": dict(c="void rda() { load(a); store(*PORT2); }", params=[], body=[{"k": "load", "e": V("a")}, {"k": "store", "e": V("PORT2")}], calls=[]),
+    "wrp": dict(c="void wrp() { store(*PORT2); }", params=[], body=[{"k": "store", "e": V("PORT2")}], calls=[]),
+    "stb": dict(c="void stb() { strobe(PORT3); }", params=[], body=[{"k": "strobe", "name": "PORT3"}], calls=[]),
+    "slp": dict(c="void slp() { csleep(7); }", params=[], body=[{"k": "csleep", "n": 7}], calls=[]),
+    # the last statement is a switch whose cases end in return / a loop whose body ends in return (tail positions of an inline body)
+    "swl": dict(c="char swl(char x) { switch (x) { case 1: c++; return 10; case 2: return 20; default: b = x; return x; } }", params=[("swl_x", 8)], body=None, calls=[]),
+    "vl": dict(c="void vl(char x) { while (x) { x--; arr[X] = x; if (x == b) continue; c++; return; } }", params=[("vl_x", 8)], body=None, calls=[]),
     "n2": dict(c="char n2(char x) { return f(x) + f(f(x)); }", params=[("n2_x", 8)], body=None, calls=["f"]),
     "n3": dict(c="char n3(char x) { if (x < 3) return lp(x); return n2(x); }", params=[("n3_x", 8)], body=None, calls=["lp", "n2"]),
     "vd": dict(c="void vd(char x) { if (x) { arr[X] = x; return; } c = 7; }", params=[("vd_x", 8)], body=None, calls=[]),
